@@ -108,5 +108,5 @@ def oracle(case):
 
 
 SUBS = [
-    Sub('inverse', strategy(), oracle, quick=1600, thorough=32000, use_target=True),
+    Sub('inverse', strategy(), oracle, quick=1600, thorough=160000, use_target=True),
 ]
